@@ -188,6 +188,7 @@ CHECKS["C07"] = {
         {"pkg": "gbnprop", "run": "TestC07EnumDecoder", "kind": "plain", "shards": (1, 16), "timeout": (600, 3600)},
         {"pkg": "gbnprop", "run": "TestC07SynValues", "kind": "plain"},
         {"pkg": "gbnprop", "run": "TestC07WindowInjection", "kind": "plain", "shards": (1, 8), "timeout": (900, 3600)},
+        {"pkg": "gbnprop", "run": "TestC07QueueWithAPast", "kind": "plain"},
         {"pkg": "gbnprop", "run": "TestC07MidResend", "kind": "plain", "shards": (1, 4), "timeout": (900, 3600)},
         {"pkg": "gbnprop", "run": "TestC07Junk", "checks": (1500, 20000), "shards": (1, 8), "timeout": (900, 3600)},
         {"pkg": "gbnprop", "run": "FuzzC07Deserialize", "kind": "fuzz", "fuzztime": (0, 60), "tiers": ("thorough",), "parallel": 8},
